@@ -182,12 +182,24 @@ type access struct {
 func mapAccesses(fn *ssa.Function, isRoot func(v ssa.Value) bool) []access {
 	guarded := map[ssa.Value]bool{}
 	var out []access
+	for _, p := range fn.Params {
+		if isRoot(p) {
+			guarded[p] = true
+		}
+	}
+	// arrays (slice literals) that hold guarded maps
+	holder := map[ssa.Value]bool{}
 	// fixpoint over values derived from roots
 	changed := true
 	for changed {
 		changed = false
 		for _, b := range fn.Blocks {
 			for _, in := range b.Instrs {
+				if st, ok := in.(*ssa.Store); ok && guarded[st.Val] {
+					if ia, ok := st.Addr.(*ssa.IndexAddr); ok && !holder[ia.X] {
+						holder[ia.X], changed = true, true
+					}
+				}
 				v, isV := in.(ssa.Value)
 				if !isV || guarded[v] {
 					continue
@@ -197,6 +209,19 @@ func mapAccesses(fn *ssa.Function, isRoot func(v ssa.Value) bool) []access {
 					continue
 				}
 				switch x := in.(type) {
+				case *ssa.UnOp:
+					// element of a slice literal holding guarded maps
+					if x.Op == token.MUL && isMapType(x.Type()) {
+						if ia, ok := x.X.(*ssa.IndexAddr); ok {
+							base := ia.X
+							if sl, ok := base.(*ssa.Slice); ok {
+								base = sl.X
+							}
+							if holder[base] {
+								guarded[v], changed = true, true
+							}
+						}
+					}
 				case *ssa.Lookup:
 					if guarded[x.X] && isMapType(x.Type()) {
 						guarded[v], changed = true, true
@@ -221,6 +246,7 @@ func mapAccesses(fn *ssa.Function, isRoot func(v ssa.Value) bool) []access {
 			}
 		}
 	}
+	_ = holder
 	for _, b := range fn.Blocks {
 		for _, in := range b.Instrs {
 			switch x := in.(type) {
